@@ -106,6 +106,16 @@ def get_prop(prop: str):
 
 def init_worker(repo: str, knobs_: Dict[str, Any], prop: str, quiet: bool = True) -> None:
     faulthandler.enable()
+    try:
+        # a run that allocates without bound ends with MemoryError inside the run (judged by the oracle) instead
+        # of the kernel killing the worker (harness error)
+        import resource
+        lim = 6 << 30
+        soft, hard = resource.getrlimit(resource.RLIMIT_AS)
+        if hard == resource.RLIM_INFINITY or hard > lim:
+            resource.setrlimit(resource.RLIMIT_AS, (lim, hard))
+    except Exception:  # noqa: BLE001 - not available: keep going without the guard
+        pass
     if quiet:
         # odxtools warns on stderr / logging for many faulty inputs; silence to keep
         # the check output readable (never part of any oracle)
